@@ -348,12 +348,13 @@ func (w word) render() string {
 	case 'q':
 		return "\"" + strings.ReplaceAll(strings.ReplaceAll(w.text, "\\", "\\\\"), "\"", "\\\"") + "\""
 	case 'b':
+		// byte by byte (the specials are ASCII; a rune loop would rewrite bytes that are not valid UTF-8)
 		var sb strings.Builder
-		for _, c := range w.text {
-			if strings.ContainsRune(specials, c) {
+		for i := 0; i < len(w.text); i++ {
+			if strings.IndexByte(specials, w.text[i]) >= 0 {
 				sb.WriteByte('\\')
 			}
-			sb.WriteRune(c)
+			sb.WriteByte(w.text[i])
 		}
 		return sb.String()
 	}
